@@ -95,7 +95,14 @@ func AddHooks(ctx *core.Context, cronner Cronner, state core.State) error {
 		}
 
 		if err = cronner.ScheduleEvent(ctx, se); err != nil {
-			core.Log(core.WARN|CRON, ctx, "addHook", "id", id, "error", err)
+			core.Log(core.WARN|CRON, ctx, "addHook", "id", id, "error", err, "loading", loading)
+			if loading {
+				// The rule is stored already.  That we cannot
+				// schedule it (any more: say its dated
+				// expression has no occurrence left) is no
+				// reason to make its whole location unusable.
+				return nil
+			}
 			return err
 		}
 
